@@ -224,6 +224,12 @@ def run_case(case):
         group = alias_group(name)
         labelled = [e for e in circ.entities.values() if e.desc["name"] in group]
         anchors = [e for e in circ.entities.values() if e.desc["name"] == name and e.desc["op"] == "output anchor"]
+        # a function- or loop-local may carry the same name as a top-level one: when some candidates sit on the lines of
+        # this name's declarations, the others belong to the local and are left to it
+        group_lines = {decl_line[g] for g in group}
+        if any(e.desc["line"] in group_lines for e in labelled) and any(e.desc["line"] not in group_lines for e in labelled):
+            labelled = [e for e in labelled if e.desc["line"] in group_lines]
+            anchors = [e for e in anchors if e.desc["line"] in group_lines]
         producers = [e for e in labelled if e.desc["op"] != "output anchor"]
         want = env.get(name)
         if not labelled:
@@ -251,7 +257,7 @@ def run_case(case):
             a = anchors[0]
             if a.kind != "const" or a.const_signals():
                 fails.append({"sig": f"{kind}:anchor-not-empty-constant", "detail": {"name": name, "entity": a.name, "signals": a.const_signals()}})
-        f, n, _u = common.compare_named_outputs(prog, circ, env, [name], label="labels", check_type=False)
+        f, n, _u = common.compare_named_outputs(prog, circ, env, [name], label="labels", check_type=False, lines_of={name: group_lines})
         for x in f:
             x["sig"] = f"{kind}:anchor-{x['sig']}"
         fails += f
